@@ -246,11 +246,10 @@ Proof.
     pose proof (of_acct_nil _ _ Eacct) as Hno.
     repeat split; auto; try tauto; try lia; try (intros; exfalso; eapply Hno; eauto; fail). }
   clear z zs Eacct.
-  unfold l_forward.
+  unfold l_forward. rewrite l_filter_false. cbv beta iota zeta.
   set (g1 := fun t => is_acct a t && (t_nonce t <? st_nonce (p_chain p) a)).
   set (p1 := set_all (set_queue p (filter (fun t => negb (g1 t)) (p_queue p))) (all_remove_list (p_all p) (filter g1 (p_queue p)))).
   assert (S1 : Struct [] p1) by (apply struct_filter_queue; auto).
-  rewrite l_filter_false.
   set (bad := fun t => is_acct a t && ((ch_gaslimit (p_chain p) <? t_gas t) || (st_balance (p_chain p) a <? cost t))).
   set (p2 := set_all (set_queue p1 (filter (fun t => negb (bad t)) (p_queue p1))) (all_remove_list (p_all p1) (filter bad (p_queue p1)))).
   assert (S2 : Struct [] p2) by (apply struct_filter_queue; auto).
@@ -322,8 +321,12 @@ Proof.
       + intros x Hx Hs. apply filter_In. split; auto. apply negb_true_iff. apply andb_false_iff. left.
         apply is_acct_false_iff. auto. }
   destruct HP4 as [S4 [D1 [D2 [D3 [D4 D5]]]]].
-  match goal with |- Struct [] ?F /\ _ => assert (HF : p_chain F = p_chain (snd capres) /\ p_pending F = p_pending (snd capres) /\ p_queue F = p_queue (snd capres) /\ map fst (p_all F) = map fst (p_all (snd capres)) /\ p_nonces F = p_nonces (snd capres)) end.
-  { fold capres. destruct capres as [caps p4]. cbv beta iota. cbn [snd]. unfold priced_removed, reheap. destruct (_ <=? _); cbn; auto. }
+  match goal with |- Struct [] ?F /\ _ =>
+    change F with (let '(caps, p4) := capres in
+                   priced_removed p4 (Z.of_nat (length (filter g1 (p_queue p)) + length (filter bad (p_queue p1)) + length caps))) end.
+  clearbody capres. destruct capres as [caps p4]. cbn [snd] in *. cbv beta iota.
+  match goal with |- Struct [] ?F /\ _ => assert (HF : p_chain F = p_chain p4 /\ p_pending F = p_pending p4 /\ p_queue F = p_queue p4 /\ map fst (p_all F) = map fst (p_all p4) /\ p_nonces F = p_nonces p4) end.
+  { unfold priced_removed, reheap. destruct (_ <=? _); cbn; auto. }
   match goal with |- Struct [] ?F /\ _ => set (pf := F) in * end.
   destruct HF as [F1 [F2 [F3 [F4 F5]]]].
   assert (Hpnf : forall b, pn_get pf b = pn_get p3 b).
